@@ -90,6 +90,22 @@ theorem dual_value_part {R : Type} [Add R] [Sub R] [Mul R] [Div R] [Neg R] [Zero
     fun A => Decomp.cholesky_natural Decomp.dualNumber_hom A,
     fun A => Decomp.ldlt_natural Decomp.dualNumber_hom A⟩
 
+/-- … and the covariances: over `Dual R` (counts embedded as constants) the value parts of
+    `covariance_column_features` / `covariance_row_features` are the covariances of the value parts,
+    with the same panic on a matrix without features — whatever the derivative parts are. -/
+theorem dual_value_part_covariance {R : Type} [Add R] [Sub R] [Mul R] [Div R] [Neg R] [Zero R] [One R]
+    [NatCast R] (m : Matrix (Dual R)) :
+    Stats.covarianceColumnFeatures (mapMat Dual.number m) =
+        omap (mapMat Dual.number) (Stats.covarianceColumnFeatures m) ∧
+    Stats.covarianceRowFeatures (mapMat Dual.number m) =
+        omap (mapMat Dual.number) (Stats.covarianceRowFeatures m) :=
+  covariance_hom (number_fieldHom (S := R)) m
+
+-- non-vacuity: two samples of one feature, values 1 and 3 with arbitrary derivative parts: variance 1
+example : (match Stats.covarianceColumnFeatures (⟨[⟨1, 7⟩, ⟨3, -2⟩], 2, 1⟩ : Matrix (Dual ℚ)) with
+    | .ok r => r.data.map Dual.number | .panic _ => []) = [1] := by
+  decide +kernel
+
 /-- **Derivative part = directional derivative (polynomial form).**  For a commutative ring `R`, inputs
     `a` with directions `a′`: with `A(X) = a + X·a′` entrywise there is the single polynomial result
     `P = routine(A(X))` over `R[X]` such that the result over the duals `⟨a, a′⟩` is `⟨P(0), P′(0)⟩`
